@@ -427,6 +427,51 @@ pub fn run(prop: &str, tier: &str, only: Option<String>) -> i32 {
         "small-scope hypothesis: nesting depth <= 3, container length <= 2/3, boundary-value leaf domains".into(),
         "Bridge to_val/from_val conversions and the chrono/bigdecimal/uuid crates are trusted".into(),
     ];
+    if prop == "C08" || prop == "C07" {
+        // a user codec that embeds a compressed block between other data
+        use bridge::tables::{zipped_decode, zipped_encode, Zipped};
+        let mut st = Stats::default();
+        let payloads: Vec<Vec<u8>> = vec![vec![], vec![7], vec![0; 300], (0..300u32).map(|i| (i.wrapping_mul(2654435761) >> 24) as u8).collect(), b"abcabcabcabc".to_vec()];
+        for (pi, payload) in payloads.iter().enumerate() {
+            let z = Zipped { id: 9, payload: payload.clone(), tail: 0xbeef };
+            let Out::Ok(b) = zipped_encode(&z) else {
+                st.violate(format!("{prop} compressed-user-codec encode"), format!("zipped:{pi}"), json!({}));
+                continue;
+            };
+            st.states += 1;
+            if prop == "C08" {
+                for k in 0..b.len() {
+                    let d = zipped_decode(&b[..k]);
+                    st.transitions += 1;
+                    st.validated += 1;
+                    if !matches!(d, Out::Err(_)) {
+                        st.violate(
+                            format!("C08 prefix-not-rejected type=user codec with a compressed block payload_len={}", payload.len()),
+                            format!("zipped:{pi}"),
+                            json!({"encoding": hex(&b), "cut": k, "result": format!("{d:?}").chars().take(200).collect::<String>()}),
+                        );
+                        break;
+                    }
+                    st.bump("Err");
+                }
+            } else {
+                let d = zipped_decode(&b);
+                st.transitions += 1;
+                st.validated += 1;
+                if d != Out::Ok(z.clone()) {
+                    st.violate(
+                        format!("C07 data-after-a-compressed-block-disturbed payload_len={}", payload.len()),
+                        format!("zipped:{pi}"),
+                        json!({"encoding": hex(&b), "result": format!("{d:?}").chars().take(200).collect::<String>()}),
+                    );
+                } else {
+                    st.bump("exact");
+                }
+            }
+            st.nontrivial += 1;
+        }
+        run.stats.merge(st);
+    }
     if prop == "C15" {
         // sources: every operation sequence on the three BinaryInput implementations
         let depth = if thorough { 4 } else { 3 };
